@@ -59,6 +59,7 @@ pub fn run_passes(o: &mut Outcome, passes: &[Pass]) -> Witness {
             "distinct_outcomes": rep.outcomes.len(),
             "raw_violating_programs": raw,
             "wall_s": rep.wall.as_secs_f64(),
+            "witnesses": rep.stats.to_json(),
         }));
         if rep.completed_depth < pass.min_depth {
             o.machinery_errors.push(format!(
